@@ -134,6 +134,9 @@ def cases(tier, seed):
   for i in range(8 if q else 96):
     r = rng_for('c14-null', seed, i)
     out.append({'est': 'MMC', 'tight': False,
+                # (every fourth: all displacements along one axis - the two
+                # gradients of the scheme are then exactly parallel)
+                'oneaxis': bool(i % 4 == 3),
                 'nullspace': {'perm': [int(x) for x in r.permutation(3)],
                               'signs': [int(x) for x in r.choice([-1, 1], 3)],
                               'base': [int(x) for x in r.randint(-3, 4, 3)]},
@@ -401,6 +404,11 @@ def run_case(spec, j):
     sg = np.array(g['signs'], dtype=float)
     Sv = np.array([[0, 1, -1], [-1, -1, 0]], dtype=float)[:, g['perm']] * sg
     Dv = np.array([[1, 1, -2], [-1, -2, 1]], dtype=float)[:, g['perm']] * sg
+    if spec.get('oneaxis'):
+      e_ = np.zeros(3)
+      e_[g['perm'][0]] = float(g['signs'][0])
+      Sv = np.array([e_, e_ * (1 + g['perm'][1])])
+      Dv = np.array([e_, -e_ * (1 + g['perm'][2])])
     b0 = np.array(g['base'], dtype=float)
     f.args = (np.array([[b0, b0 + v] for v in np.vstack([Sv, Dv])]),
               np.array([1, 1, -1, -1]))
